@@ -59,7 +59,9 @@ def check(ctx: Ctx) -> None:
         clears = cfg_nodes_with_call(cfgs, lambda c: _is_evt_call(c, "clear"))
         waits = [n for n in cfgs.nodes if n.kind == "test" and any(_is_evt_call(c, "wait") for c in calls_in_node(n))]
         spawns = cfg_nodes_with_call(cfgs, lambda c: callee_attr(c) == "spawn")
-        ob.require(bool(clears) and bool(waits) and bool(spawns), "wait/clear/spawn anchors missing in _local_schedulexec")
+        ob.require(bool(waits) and bool(spawns), "wait/spawn anchors missing in _local_schedulexec")
+        if not clears:
+            ob.site(fs, fs.node, "clear() of the completion event in the scheduling step", found=False)
         for w in waits:
             wc = [c for c in calls_in_node(w) if _is_evt_call(c, "wait")][0]
             to = arg(wc, 0, "timeout")
